@@ -26,6 +26,7 @@ type UISession struct {
 	frames   []Frame
 	keysOut  int
 	keysBack int
+	returned map[int]bool
 	execs    []simexec.Record
 	pollerOn bool
 	stopPoll bool
@@ -62,9 +63,11 @@ func newUISession(r *Run, w, h int) *UISession {
 }
 
 // callerOfSink names the servitor function that called the output callback.
-func callerOfSink() string {
+func callerOfSink() string { return callerOfSinkAt(3) }
+
+func callerOfSinkAt(skip int) string {
 	pcs := make([]uintptr, 24)
-	n := runtime.Callers(3, pcs)
+	n := runtime.Callers(skip+1, pcs)
 	frames := runtime.CallersFrames(pcs[:n])
 	var names []string
 	for {
@@ -115,6 +118,7 @@ func (u *UISession) sink(frame string) {
 	}
 	u.mu.Unlock()
 	s.Probe("frames")
+	s.Probe("frame_by:" + callerOfSinkAt(2))
 	checkTerm(u.r, "frame", frame)
 	checkFrameHeight(u.r, frame, sizes)
 }
@@ -139,18 +143,30 @@ func (u *UISession) Subcommand(name, arg string) {
 }
 
 // Key issues one key press the way main.go does: `go state.Update(input)`.
-func (u *UISession) Key(b byte) {
+func (u *UISession) Key(b byte) int {
 	u.mu.Lock()
 	i := u.keysOut
 	u.keysOut++
+	if u.returned == nil {
+		u.returned = map[int]bool{}
+	}
 	u.mu.Unlock()
 	u.r.S.GoLabel(fmt.Sprintf("key#%d", i), func() {
 		u.st.Update(b)
 		u.mu.Lock()
 		u.keysBack++
+		u.returned[i] = true
 		u.mu.Unlock()
 		u.r.S.Poke()
 	})
+	return i
+}
+
+// Returned reports whether the Update call of key i has returned.
+func (u *UISession) Returned(i int) bool {
+	u.mu.Lock()
+	defer u.mu.Unlock()
+	return u.returned[i]
 }
 
 func (u *UISession) KeysPending() int {
